@@ -8,7 +8,7 @@ on intervals.
 import sympy
 from fractions import Fraction
 
-from kernel.type import RealType
+from kernel.type import RealType, NatType
 from kernel import term
 from kernel.term import Term
 from kernel.thm import Thm
@@ -83,6 +83,9 @@ def convert(t):
     elif t.is_plus():
         return convert(t.arg1) + convert(t.arg)
     elif t.is_minus():
+        if t.get_type() == NatType:
+            # subtraction at nat is truncated: it is not the subtraction of SymPy
+            raise SymPyException("convert: subtraction at type nat")
         return convert(t.arg1) - convert(t.arg)
     elif t.is_uminus():
         return -convert(t.arg)
